@@ -78,3 +78,11 @@ Definition payload_step (legacy : bool) (st : str * bool) (n : pnode) : str * bo
 (* returns the payload and the open_span flag left behind for the next caption *)
 Definition recreate_text (legacy : bool) (open : bool) (nodes : list pnode) : str * bool :=
   let '(line, open') := fold_left (payload_step legacy) nodes ([], open) in (rstrip line, open').
+
+(* LegacyDFXPWriter._recreate_style: as above, preceded by region= when the dictionary has a `region` key naming a
+   <region> that exists in the document so far *)
+Definition legacy_recreate_style (content : list (str * str)) (style_ids region_ids : list str) : list (str * str) :=
+  (match lookup (lit "region") content with
+   | Some r => if existsb (str_eqb r) region_ids then [(lit "region", r)] else []
+   | None => [] end)
+  ++ recreate_style content style_ids.
